@@ -6,11 +6,11 @@
              the flattened instances units_0 .. units_{n-1} (names as ArrayFlattener invents them), references, parameters
              and every connection target (resolved slices of the private bus) - up to the ORDER of the connections inside
              one instance (the design lists them in port order, generators.py puts the parallel ports first);
-             for series ports wider than one bit: the implementation rejects, the design generators.py builds
-             (series_design_code) is not valid, and the bit-by-bit design (series_design) is valid and exported by the model
+             series ports wider than one bit are ordinary cases (fixes/C19W-1): series_design with the width of the pair,
+             private bus of (n-1)*w bits, resolved bit by bit
           2  they differ (tie broken), or the implementation rejected a call the model accepts / accepted one it rejects
-          4  the model contradicts a theorem of Props/C19E.v (the pipeline model rejects a series design, or the code's
-             design for wide series ports is valid): a defect of the checker
+          4  the model contradicts a theorem of Props/C19E.v (the pipeline model rejects a series design, or the design of
+             the PINNED code for wide series ports - series_design_code - is valid): a defect of the checker
           3  the case is outside the hypotheses (series_ok / wrapper_ok / xinfo_ok false, unknown series port, the two
              series ports differ in width): a defect of the harness *)
 Require Import Hdl21.Base.PyInt Hdl21.Spec.PySlice Hdl21.Model.Slice Hdl21.Model.Resolve Hdl21.Base.Design
@@ -74,22 +74,10 @@ Definition chk_c19e (c : c19e_case) : Z :=
             match assoc (e_a c) io, assoc (e_b c) io with
             | Some wa, Some wb =>
                 if negb ((wa =? wb) && series_ok nm io (e_a c) (e_b c) wa (e_n c)) then 3 else
-                if wa =? 1 then
-                  let d := series_design nm io (e_a c) (e_b c) 1 (e_n c) in
-                  if negb (xinfo_ok xi d) then 3 else tie xi d (e_pkg c)
-                else
-                  let dc := series_design_code nm io (e_a c) (e_b c) (e_n c) in
-                  let dg := series_design nm io (e_a c) (e_b c) wa (e_n c) in
-                  match wf_design dc with
-                  | Ok _ => 4
-                  | Error _ =>
-                      match e_pkg c with
-                      | Some _ => 2
-                      | None =>
-                          if is_ok (wf_design dg) && frag_ok2 dg && xinfo_ok xi dg && is_ok (elab_export_model2 xi dg)
-                          then 0 else 4
-                      end
-                  end
+                let d := series_design nm io (e_a c) (e_b c) wa (e_n c) in
+                if negb (xinfo_ok xi d) then 3 else
+                if (2 <=? wa) && is_ok (wf_design (series_design_code nm io (e_a c) (e_b c) (e_n c))) then 4 else
+                tie xi d (e_pkg c)
             | _, _ => 3
             end
         end
@@ -101,5 +89,6 @@ Definition model_pkg_c19e (c : c19e_case) : result package :=
   let names := map fst io in
   iname <- unused_name (name_fuel names) names "i" ;;
   un <- unused_name (name_fuel (iname :: names)) (iname :: names) "units" ;;
+  w <- ofopt EMissing (assoc (e_a c) io) ;;
   elab_export_model2 (e_xinfo c)
-    (series_design {| sn_mod := e_mod c; sn_dev := dev_string (e_dev c); sn_i := iname; sn_units := un |} io (e_a c) (e_b c) 1 (e_n c)).
+    (series_design {| sn_mod := e_mod c; sn_dev := dev_string (e_dev c); sn_i := iname; sn_units := un |} io (e_a c) (e_b c) w (e_n c)).
